@@ -78,6 +78,8 @@ def name_module(nm, position):
     m.add_func('i', 'i', (), local_get(0) + call(0), export=(nm if position == 'export' else 'e'))
     if position == 'name-section':
         m.names = {0: nm, 1: nm}
+    if position == 'partial-name-section':
+        m.names = {1: nm}          # the import is not named
     return m.encode()
 
 
@@ -167,7 +169,7 @@ def main(tier):
     for n, d in hb:
         for part in chunks(full if tier == 'thorough' else full[::6], 24):
             jobs.append((n, d, part, w2c2))
-    positions = ('export', 'import-module', 'import-field', 'name-section')
+    positions = ('export', 'import-module', 'import-field', 'name-section', 'partial-name-section')
     for nm in NAME_ALPHABET:
         for pos in positions:
             jobs.append(('name %r in %s' % (nm[:12], pos), name_module(nm, pos), [[], ['-g'], ['-m', '-p'], ['-g', '-f', '1', '-t', '1']], w2c2))
